@@ -250,6 +250,14 @@ pub fn to_yaml(r: &mut Rng, top: &TopCfg, i: &IntfCfg) -> String {
         Cv::Null => kv("lifetime", "null".into()),
         Cv::Val(v) => kv("lifetime", dur_text(r, *v)),
     }
+    // how often unsolicited advertisements are sent: not a field of the advertisement, must not change any of them
+    if r.chance(1, 3) {
+        let max = *r.pick(&[4u64, 10, 600, 1_800, 0]);
+        let max = if max == 0 { r.range(4, 1_800) } else { max };
+        kv("max-router-advertisement-interval", format!("{}s", max));
+        // (the sibling min-router-advertisement-interval is not written: the pinned loader refuses every value below 1350 s and
+        // above 75 % of the maximum, i.e. all of them -- an inverted comparison outside the twenty properties)
+    }
     if let Some(v) = i.reachable {
         kv("reachable", dur_text(r, v));
     }
